@@ -58,11 +58,6 @@ FWD_ACCEPTED = {
     ("emit.argparse_function", "option-not-forwarded:emit_default_doc->emit.docstring"):
         "the IR handed to the helper docstring carries no `default` key (fixed `argument_parser` parameter, return entry of doc and typ only), so no default sentence can be "
         "written there; the parser reads the return default from the `return` statement",
-    ("parse.class_", "option-not-forwarded:infer_type->parse.class_"):
-        "live-class path only (class_ given a `type`, re-parsed from inspect.getsource): outside the claimed properties' domains (C02 observes parse.class_(ClassDef)); "
-        "observed and noted in DESIGN: on that path the body is parsed with the default infer_type",
-    ("parse.class_", "option-not-forwarded:word_wrap->parse.class_"):
-        "live-class path only, as above: the body is parsed with the default word_wrap",
     ("parse.class_", "option-not-forwarded:infer_type->parse.docstring"):
         "type inference from defaults is done by the final _set_name_and_type pass of class_ with the caller's infer_type after the attribute values were merged in",
 }
@@ -210,7 +205,7 @@ spec("C15", "Dotted locations",
      not_decided="full functional correctness of the resolver against an independent one")
 
 spec("C16", "Bodies carried verbatim",
-     [V.rule_visit5, TB.rule_table_argparse, M.rule_mod1_2, det3("bodies", "emit.class_", "emit.function", "emit.argparse_function", "parse.class_", "parse.function", "parse.argparse_ast")],
+     [V.rule_visit5, TB.rule_table_argparse, M.rule_mod1_2, O.rule_ret_top, det3("bodies", "emit.class_", "emit.function", "emit.argparse_function", "parse.class_", "parse.function", "parse.argparse_ast")],
      "Necessary conditions: (VISIT-5) the parameter->self.<parameter> renamer rewrites only names in its set, handles every scope-introducing node kind, and its set is exactly "
      "the IR's parameter names as given (computed before the return entry is folded in); (TABLE-argparse) the argparse recognisers pin down receiver and attribute, so only "
      "the emitter's own statements are treated as interface and every other statement stays in the carried body. (DET-3, scoped) no function on this property's code path writes state that outlives the call (module globals/objects, function or class attributes, mutated mutable defaults, memoised mutable results): the conversion is not history-dependent.",
